@@ -279,6 +279,7 @@ struct Model {
   std::vector<RV> V;                            // stored vertices
   LD I = 0, dlam = 0, len = 0, absI = 0;        // reference sums over the open chain V[0] .. V.back()
   LD tolA = 0, tolP = 0;                        // accumulated tolerances (m^2, m), before K
+  LD maxcond = 1;                               // largest conditioning factor of an edge of the chain
   bool judged = true; std::string why;          // false once an edge is ambiguous / the reference failed
   int nseeded = 0, nwrap = 0, npole = 0, nzero = 0, ntie = 0, nrheq = 0, npreq = 0;     // nrheq: edges with the signature of the Rhumb(exact, prolate) near-equator distance defect
   void clear() { *this = Model(); }
@@ -286,6 +287,7 @@ struct Model {
     if (e.st != E_OK) { if (judged) { judged = false; why = e.why; } return; }
     I += e.I; dlam += e.dlam; len += e.len; absI += fabsl(e.I);
     tolA += ((LD)env.tol_pos * e.lenscale + e.extra_tol) * env.cauth * e.cond; tolP += (LD)env.tol_pos * e.lenscale + e.extra_tol;
+    if (e.cond > maxcond) maxcond = e.cond;
     if (e.tie) ++ntie; if (e.rheq) ++nrheq; if (e.preq) ++npreq; if (e.seeded) ++nseeded; if (e.lenscale > 2) ++nwrap; if (e.pole) ++npole; if (e.len == 0) ++nzero;
   }
 };
